@@ -36,7 +36,7 @@ theorem normalize_canon : ∀ (t : VTy) (j c : Json), WFTy t → decodeVal false
   refine decodeVal.induct false
     (motive1 := fun t j => ∀ c, WFTy t → decodeVal false t j = some c → normalize c = some c)
     (motive2 := fun t xs => ∀ cs, WFTy t → decodeVals false t xs = some cs → normalizeList cs = some cs)
-    ?_ ?_ ?_ ?_ ?_ ?_ ?_ ?_ ?_ ?_ ?_ ?_ ?_ ?_ ?_ ?_ t j
+    ?_ ?_ ?_ ?_ ?_ ?_ ?_ ?_ ?_ ?_ ?_ ?_ ?_ ?_ ?_ ?_ ?_ ?_ t j
   · intro bits s c hw h
     simp only [decodeVal] at h
     cases hn : canonNat s with
@@ -79,8 +79,8 @@ theorem normalize_canon : ∀ (t : VTy) (j c : Json), WFTy t → decodeVal false
       · cases h; simp [normalize]
       · cases h
   · intro ms c _ h; simp only [decodeVal] at h; cases h; simp [normalize, normalizeMembers]
-  · intro hv; simp at hv
-  · intro hv c _ h; simp [decodeVal] at h
+  · intro xs hv; simp at hv
+  · intro xs hv c _ h; simp [decodeVal] at h
   · intro t c _ h; simp only [decodeVal] at h; cases h; simp [normalize]
   · intro t j hj ih c hw h
     have e : decodeVal false t.option j = decodeVal false t j := by
@@ -106,13 +106,15 @@ theorem normalize_canon : ∀ (t : VTy) (j c : Json), WFTy t → decodeVal false
         simp [hx, hy] at h
         cases h
         simp [normalize, normalizeList, iha x' hw.1 hx, ihb y' hw.2 hy]
-  · intro t j h1 h2 h3 h4 h5 h6 h7 h8 h9 h10 h11 h12 c _ h
+  · intro a b2 x y hd tl hv; simp at hv
+  · intro a b2 x y hd tl hv c _ h; simp [decodeVal] at h
+  · intro t j h1 h2 h3 h4 h5 h6 h7 h8 h9 h10 h11 h12 h13 c _ h
     exfalso
     cases t <;> cases j <;>
       first
       | exact h1 _ _ rfl rfl | exact h2 _ _ rfl rfl | exact h3 _ rfl rfl
       | exact h4 _ rfl rfl | exact h5 _ rfl rfl | exact h6 _ rfl rfl
-      | exact h7 _ rfl rfl | exact h9 _ rfl rfl | exact h10 _ rfl
+      | exact h7 _ rfl rfl | exact h8 _ rfl rfl | exact h9 _ rfl rfl | exact h10 _ rfl
       | exact h11 _ _ rfl rfl
       | (simp [decodeVal] at h; done)
       | skip
